@@ -701,6 +701,8 @@ def gen_history(rng, hid, tier, cap):
             else:
                 lines.append(s)
     else:
+        lines.append("B n" if rng.random() < 0.7 else "B h 0")
+        depth = 1
         for _ in range(n):
             r = rng.random()
             if r < 0.12:
@@ -855,9 +857,9 @@ def shrink_scratch(env, cap, before, h, release):
 
 def correspond(env, searching=False, model=True):
     quick = env.tier == "quick"
-    n_prog = 120 if quick else 3000
-    n_seq, seq_len = (20, 8) if quick else (600, 12)
-    n_hist = 300 if quick else 20000
+    n_prog = 240 if quick else 4000
+    n_seq, seq_len = (40, 8) if quick else (800, 12)
+    n_hist = 600 if quick else 30000
     if searching:
         n_prog, n_seq, n_hist = n_prog * 2, n_seq * 2, n_hist * 2
     ok, out = common.build_naija()
@@ -875,7 +877,14 @@ def correspond(env, searching=False, model=True):
         for fn in sorted(os.listdir(cdir)):
             if fn.endswith(".ns"):
                 progs.append(("corpus", open(os.path.join(cdir, fn)).read()))
-    progs += gen_programs(env.rng, n_prog - len(progs))
+    sdir = os.path.join(common.REPO, "tests", "stress")       # the repository's own arena stress scripts
+    if os.path.isdir(sdir):
+        names = sorted(f for f in os.listdir(sdir) if f.endswith(".ns"))
+        if quick:
+            names = names[::3]
+        for fn in names:
+            progs.append(("stress", open(os.path.join(sdir, fn)).read()))
+    progs += gen_programs(env.rng, max(n_prog - len(progs), 10))
     kinds = {}
     for k, _ in progs:
         kinds[k] = kinds.get(k, 0) + 1
